@@ -40,7 +40,7 @@ RULE = ("four corpora, user names drawn from a hostile near-miss pool (anon_1 _a
         "one name 2-4 times (also through unpacking targets) with closures and reads between the bindings; (d) the let/comprehension/nonlocal/match sources of the C04 C06 "
         "C07 C08 generators when importable (static oracle only). Non-trivial = the compiled AST contains >= 2 "
         "distinct _hy_ names; distinct by program text.")
-FLOOR = {"quick": 1000, "thorough": 1000}
+FLOOR = {"quick": 400, "thorough": 1000}
 BUDGET = {"quick": 24, "thorough": 480}
 CASE_TIMEOUT = 20
 NEEDS_EVENTS = True
